@@ -42,6 +42,16 @@ def m_serialize_serval(ex, a, m):
         if isinstance(v, Int) and v.ty == 'char': return _ser(ex, ser, 'serialize_char', [v])
         if isinstance(v, Bool): return _ser(ex, ser, 'serialize_bool', [v])
         if isinstance(v, F64): return _ser(ex, ser, 'serialize_f64', [v])
+        # library values serialised into the crate's own Serializer (the generic ToJmespath path applied to a Variable / Rc<Variable> / &Rc<Variable>)
+        if isinstance(v, Agg) and v.ty == 'Variable':
+            f = ex.prog.by_key.get(('Serialize', 'Variable', 'serialize'))
+            if f is None: return NotImplemented
+            return ex.run_fn(f, [Ptr(Cell(v), 'ref'), ser])
+        if isinstance(v, NumberV): return _ser(ex, ser, {'pos': 'serialize_u64', 'neg': 'serialize_i64', 'float': 'serialize_f64'}[v.kind], [v.val])
+        if isinstance(v, VecV): return m_serialize_serval(ex, [SerVal('seq', [c.v for c in v.items]), ser], m)
+        if isinstance(v, MapV):
+            if not v.ordered and len(v.d) > 1: raise Unsupported('serialising a HashMap: iteration order unspecified')
+            return m_serialize_serval(ex, [SerVal('map', [(rstr(k), v.d[k].v) for k in v.keys()]), ser], m)
         return NotImplemented
     t = v.t; k = t[0]
     if not (isinstance(ser, Agg) and ser.ty == 'Serializer'): raise Unsupported('SerVal serialised into a foreign serializer')
@@ -93,6 +103,13 @@ def m_serialize_serval(ex, a, m):
             return _st(ex, 'SerializeStructVariant', 'StructVariantState', 'end', [c.v])
     except SerErr as e: return e.r
     raise Unsupported('SerVal kind ' + k)
+@model_override(r'^<.+ as (?:serde::)?(?:ser::)?Serializer>::(serialize_\w+)$')
+def m_generic_into_crate_serializer(ex, a, m):
+    """`<S as Serializer>::serialize_x` in generic crate code (impl Serialize for Variable) with S = the crate's own Serializer"""
+    if not (a and isinstance(a[0], Agg) and a[0].ty == 'Serializer'): return NotImplemented
+    f = ex.prog.by_key.get(('Serializer', 'Serializer', m.group(1)))
+    if f is None: return NotImplemented
+    return ex.run_fn(f, list(a))
 class SerErr(Exception):
     def __init__(s, r): s.r = r
 @model_override(r'^<.+ as (?:serde::)?de::Error>::custom$|^<serde_json::Error as (?:serde::)?(?:ser|de)::Error>::custom$')
